@@ -266,8 +266,11 @@ class SocketOptionName(enum.Enum):
     SO_TIMESTAMP_CONTINUOUS = 0x40000
 
 
+SOL_SOCKET = 0xffff  # Darwin's value (bsd/sys/socket.h); the host's socket.SOL_SOCKET differs on other systems.
+
+
 def sockopt_format_level_and_option(level, option_name):
-    if level == socket.SOL_SOCKET:
+    if level == SOL_SOCKET:
         return 'SOL_SOCKET', SocketOptionName(option_name).name
     else:
         return level, option_name
